@@ -92,14 +92,28 @@ def main():
         except Exception:
             meta = {}
     # run the check against the change
-    rc, out = sh("git apply %s" % os.path.join(dst, "patch.diff"), cwd="/repo")
-    assert rc == 0, out
+    in_repo = "--in-repo" in sys.argv
     ev = os.path.join(VERIF, "evidence", "%s.json" % prop)
     ev_saved = open(ev).read() if os.path.exists(ev) else None
+    if in_repo:
+        target, env2 = "/repo", dict(os.environ, VERIF_SEED=seed)
+    else:
+        # while other workers run checks against /repo, a seeded change is applied to a scratch worktree
+        # and the check is pointed at it with RIG_REPO (same code path as /repo)
+        target = "/tmp/seedrun_repo"
+        sh("git -C /repo worktree remove --force %s" % target)
+        rc, out = sh("git -C /repo worktree add %s HEAD" % target)
+        assert rc == 0, out
+        env2 = dict(os.environ, VERIF_SEED=seed, RIG_REPO=target)
+    rc, out = sh("git apply %s" % os.path.join(dst, "patch.diff"), cwd=target)
+    assert rc == 0, out
     try:
-        crc, cout = sh("./check %s --tier %s" % (prop, tier), cwd=VERIF, env=dict(os.environ, VERIF_SEED=seed))
+        crc, cout = sh("./check %s --tier %s" % (prop, tier), cwd=VERIF, env=env2)
     finally:
-        sh("git checkout -- .", cwd="/repo")
+        if in_repo:
+            sh("git checkout -- .", cwd="/repo")
+        else:
+            sh("git -C /repo worktree remove --force %s" % target)
         # the evidence file of a run against a seeded change is not evidence about /repo: restore
         if ev_saved is not None:
             open(ev, "w").write(ev_saved)
@@ -116,7 +130,7 @@ def main():
         "property": prop, "confirmed_by_me": res,
         "what_i_ran": ["scratch worktree of /repo@%s: demo.py before (exit %d) / after (exit %d) the patch; full pytest suite before/after: passing set unchanged (%d tests)" % (
             head, res["demo_unchanged_exit"], res["demo_changed_exit"], len(base)),
-            "git -C /repo apply patch.diff; VERIF_SEED=%s ./check %s --tier %s; git -C /repo checkout -- ." % (seed, prop, tier)],
+            ("git -C /repo apply patch.diff; VERIF_SEED=%s ./check %s --tier %s; git -C /repo checkout -- ." if in_repo else "scratch worktree of /repo with patch.diff applied; RIG_REPO=<scratch> VERIF_SEED=%s ./check %s --tier %s") % (seed, prop, tier)],
         "check_exit": crc, "check_lines": [l[:300] for l in lines], "check_tail": cout.splitlines()[-1][:300] if cout else "",
         "caught": crc == 1 and any(l.startswith("VIOLATION") for l in lines),
         "caught_with_concrete_input": crc == 1 and any(l.startswith("VIOLATION") and "no-failing-input-found" not in l for l in lines),
